@@ -342,6 +342,10 @@ def py_str(interp, v=''):
         return str(v)
     if isinstance(v, Fraction):
         return repr(float(v))
+    if isinstance(v, Obj):
+        f, _ = v.cls.lookup('__str__')
+        if f is not None:
+            return interp.call(BoundMethod(v, f), [], {})
     if isinstance(v, PyClass):
         return "<class '%s.%s'>" % (v.module.name, v.name)
     if isinstance(v, TypeV):
